@@ -32,6 +32,7 @@ def main():
     ap.add_argument("--checks", default="all")
     ap.add_argument("--tier", default="quick")
     ap.add_argument("--skip-suite", action="store_true")
+    ap.add_argument("--out", default="result.json")
     a = ap.parse_args()
     d = os.path.abspath(a.dir)
     patch = os.path.join(d, "patch.diff")
@@ -50,7 +51,7 @@ def main():
         if r.returncode:
             res["apply_error"] = r.stderr[-500:]
             print("PATCH DOES NOT APPLY", r.stderr[-300:])
-            json.dump(res, open(os.path.join(d, "result.json"), "w"), indent=1)
+            json.dump(res, open(os.path.join(d, a.out), "w"), indent=1)
             return 1
         if not a.skip_suite:
             r = sh("%s/tools/run_baseline.sh %s" % (ROOT, wt))
@@ -99,7 +100,7 @@ def main():
         shutil.rmtree(wt, ignore_errors=True)
         shutil.rmtree(vcopy, ignore_errors=True)
         sh("git -C /repo worktree prune")
-    json.dump(res, open(os.path.join(d, "result.json"), "w"), indent=1)
+    json.dump(res, open(os.path.join(d, a.out), "w"), indent=1)
     print(json.dumps({k: v for k, v in res.items() if k not in ("checks", "demo_output_on_changed")}, indent=1))
     return 0
 
